@@ -30,10 +30,12 @@ func TestMain(m *testing.M) {
 	}
 	vcore.Init("C18", "exploration",
 		"full stack (real PfcpServer + real Gtp5g driver + periodic server + netlink listener + simulated kernel) driven by scripts with drawn load parameters: sessions 1..1000, periodic URRs per session 0..4 over 1..3 periods, kernel latency 0..200 us, bursts of 0..600 buffer notifications "+
-			"placed before / during / after rule changes, ticks placed before / inside / after a bulk removal (re-association of the node or mass deletion); generator biased towards the capacity products named in the quantifier (timer events per loop turn around 512, sessions reported per tick around 128, notifications in flight around 128). "+
+			"placed before / during / after rule changes, ticks placed before / inside / after a bulk removal (re-association of the node or mass deletion); generator biased towards the capacity products named in the quantifier (timer events posted during one bulk removal around 512, sessions reported per tick around 128, notifications in flight around 128). "+
+			"One script in three is a wall-clock schedule with real tickers instead (2..5 sessions over measurement periods of 1..3 s, staggered establishment, deletions at drawn offsets, usage queries of the periodic server slowed to 0..700 ms), built around 'a group's own tick is queued behind the removal of its last URR while another group's query is in progress'. "+
 			"Each script runs in its own subprocess (a wedged UPF cannot be torn down). Oracle: after the script a Heartbeat must be answered; a violation is reported only with a deadlock certificate: after 10 s without answer a goroutine dump is taken and the wait-for graph over the UPF's long-lived goroutines "+
-			"(event loop, periodic server, netlink mux/listener, ticker goroutines) is built from the blocked channel operations; a cycle through the event loop can never resolve. No cycle = inconclusive. "+
-			"non-trivial = timer events issued in one loop turn > 512, or sessions reported by one tick > 128, or notifications in flight > 128; distinct by script",
+			"(event loop, periodic server, netlink mux/listener, ticker goroutines) is built from the blocked channel operations; a cycle (through the event loop, or among the report producers alone, seen again 2 s later) can never resolve. No cycle = inconclusive (the whole run then exits 2). "+
+			"After the script the listener and the periodic server must drain as well (sentinel tick observed in the kernel log within 20 s), else the same analysis runs. "+
+			"non-trivial = timer events posted during one bulk removal > 512, or sessions reported by one tick > 128, or notifications in flight > 128, or (real tickers) a deletion landing inside another group's slow query; distinct by script",
 		"liveness is attacked through its safety shadow (no reachable wait-for cycle); wedges without such a cycle would be missed",
 		"the two cycles recorded as known findings are tolerated only for scripts that really exceed the queue capacities involved; the same cycle below capacity is a violation")
 	vcore.Main(m)
@@ -45,23 +47,35 @@ type Script struct {
 	URRs      int    `json:"urrs"`    // periodic URRs per session
 	Periods   int    `json:"periods"` // 1..3
 	LatencyUs int    `json:"latency_us"`
-	Burst     int    `json:"burst"`       // buffer notifications
-	BurstAt   string `json:"burst_at"`    // none | mods | bulk | idle
-	Tick      string `json:"tick"`        // none | before | inside | after
-	Bulk      string `json:"bulk"`        // none | reassoc | massdel
-	Mods      int    `json:"mods"`        // rule-changing modifications issued while the burst arrives
+	Burst     int    `json:"burst"`    // buffer notifications
+	BurstAt   string `json:"burst_at"` // none | mods | bulk | idle
+	Tick      string `json:"tick"`     // none | before | inside | after
+	Bulk      string `json:"bulk"`     // none | reassoc | massdel
+	Mods      int    `json:"mods"`     // rule-changing modifications issued while the burst arrives
+	// Real, when non-empty, replaces the injected ticks by a wall-clock schedule with real tickers (periods of 1..3 s)
+	Real []RealEv `json:"real,omitempty"`
+}
+
+// RealEv is one timed action of a real-ticker script.
+type RealEv struct {
+	AtMs   int    `json:"at_ms"`
+	Kind   string `json:"kind"`              // est | del | slow
+	Sess   int    `json:"sess,omitempty"`    // del: index in establishment order
+	Period int    `json:"period,omitempty"`  // est: measurement period in seconds
+	SlowMs int    `json:"slow_ms,omitempty"` // slow: latency of the periodic server's usage queries from now on
 }
 
 type Result struct {
-	OK          bool     `json:"ok"`
-	Cycle       string   `json:"cycle,omitempty"`
-	States      []string `json:"states,omitempty"`
-	Inconclusive string  `json:"inconclusive,omitempty"`
-	Crash       string   `json:"crash,omitempty"`
-	TimerEvents int      `json:"timer_events"`  // events the loop posts to the periodic server in one turn
-	Reported    int      `json:"reported"`      // sessions one tick reports
-	InFlight    int      `json:"in_flight"`     // notifications written while the loop was busy
-	WallMs      int64    `json:"wall_ms"`
+	OK           bool     `json:"ok"`
+	Cycle        string   `json:"cycle,omitempty"`
+	States       []string `json:"states,omitempty"`
+	Inconclusive string   `json:"inconclusive,omitempty"`
+	Crash        string   `json:"crash,omitempty"`
+	TimerEvents  int      `json:"timer_events"`  // events the loop posts to the periodic server in one turn
+	Reported     int      `json:"reported"`      // sessions one tick reports
+	InFlight     int      `json:"in_flight"`     // notifications written while the loop was busy
+	BusyRemovals int      `json:"busy_removals"` // real-ticker scripts: deletions landing while the periodic server is inside a slow query
+	WallMs       int64    `json:"wall_ms"`
 }
 
 var periodSecs = []uint32{3600, 7200, 10800}
@@ -152,6 +166,10 @@ func analyse(dump string) (cycle string, states []string) {
 		case "chan receive":
 			if has("go-nl.(*Client).Do") {
 				add(g.role, "mux")
+			} else if g.role == "ticker" {
+				// a ticker goroutine shares channels with the periodic server only (its event queue, its group's stop channel,
+				// whatever it handed over inside an event): parked in a plain receive it waits for that server
+				add("ticker", "perio")
 			}
 		case "syscall", "IO wait":
 			if g.role == "kernel" && has("kwrite") {
@@ -190,6 +208,45 @@ func analyse(dump string) (cycle string, states []string) {
 	if dfs("loop") {
 		return strings.Join(path, "->"), states
 	}
+	// a cycle among the report producers alone: reports stop although the loop still answers
+	var starts []string
+	for n := range edges {
+		if n != "loop" {
+			starts = append(starts, n)
+		}
+	}
+	sort.Strings(starts)
+	for _, st := range starts {
+		var p []string
+		vis := map[string]bool{}
+		var walk func(n string) bool
+		walk = func(n string) bool {
+			p = append(p, n)
+			if n == st && len(p) > 1 {
+				return true
+			}
+			if vis[n] {
+				p = p[:len(p)-1]
+				return false
+			}
+			vis[n] = true
+			var next []string
+			for m := range edges[n] {
+				next = append(next, m)
+			}
+			sort.Strings(next)
+			for _, m := range next {
+				if walk(m) {
+					return true
+				}
+			}
+			p = p[:len(p)-1]
+			return false
+		}
+		if walk(st) {
+			return strings.Join(p, "->"), states
+		}
+	}
 	return "", states
 }
 
@@ -216,6 +273,14 @@ func runScript(s Script) (res Result) {
 		cyc, states := analyse(string(buf[:n]))
 		res.States = states
 		if cyc != "" {
+			// the same cycle must still be there two seconds later
+			time.Sleep(2 * time.Second)
+			n = runtime.Stack(buf, true)
+			if again, _ := analyse(string(buf[:n])); again != cyc {
+				cyc = ""
+			}
+		}
+		if cyc != "" {
 			res.Cycle = cyc
 		} else {
 			res.Inconclusive = what + ": heartbeat unanswered but no wait-for cycle through the event loop"
@@ -241,8 +306,13 @@ func runScript(s Script) (res Result) {
 	if !step(stack.Op{Kind: "assoc", Peer: 0, Node: 0, Sess: -1}, "association") {
 		return
 	}
+	if len(s.Real) > 0 {
+		if !runReal(s, f, step, &res) {
+			return
+		}
+	}
 	// establishment (one at a time, with barrier: set-up must not wedge by itself)
-	for i := 0; i < s.Sessions; i++ {
+	for i := 0; i < s.Sessions && len(s.Real) == 0; i++ {
 		rules := []stack.RuleOp{
 			{Verb: "create", Kind: "FAR", ID: 1, Action: 0x0c, HasAction: true, OHC: &stack.OHC{TEID: uint32(i + 1), Peer: "10.0.0.9"}},
 			{Verb: "create", Kind: "QER", ID: 1, QFI: 9},
@@ -258,7 +328,7 @@ func runScript(s Script) (res Result) {
 		}
 	}
 	if err := f.PerioBarrier(); err != nil {
-		res.Inconclusive = err.Error()
+		wedge("periodic server after set-up")
 		return
 	}
 	// the capacity products of this script
@@ -278,10 +348,10 @@ func runScript(s Script) (res Result) {
 		res.Reported = perPeriod
 	}
 	if s.Bulk != "none" {
+		// timer events the loop posts while the periodic server may be stuck delivering a tick: all of them in one
+		// loop turn for a re-association, spread over back-to-back deletion requests for a mass deletion (the loop
+		// does not wait for the periodic server in between, so they pile up in its queue just the same)
 		res.TimerEvents = s.Sessions * s.URRs
-		if s.Bulk == "massdel" {
-			res.TimerEvents = s.URRs // one session per loop turn
-		}
 	}
 	tick := func() { f.D.G.VerifPerio().VerifTick(time.Duration(periodSecs[0]) * time.Second) }
 	burst := func(n int) {
@@ -300,6 +370,9 @@ func runScript(s Script) (res Result) {
 	if len(r.Sess) == 0 {
 		res.OK = true
 		return
+	}
+	if len(s.Real) > 0 {
+		s.Tick, s.Bulk, s.BurstAt = "none", "none", "none"
 	}
 	// ---- the script proper: no barrier between the pieces, they overlap inside the UPF
 	if s.Tick == "before" {
@@ -387,6 +460,85 @@ func runScript(s Script) (res Result) {
 	return
 }
 
+// runReal plays a wall-clock schedule: sessions with one periodic URR each (real tickers), deletions and changes of the
+// usage-query latency at the given offsets.  Requests go through step (answer + barrier), so a loop that stops answering
+// is noticed at once; the periodic server is checked by the common liveness part afterwards.
+func runReal(s Script, f *fullstack.Full, step func(stack.Op, string) bool, res *Result) bool {
+	t0 := time.Now()
+	nest := 0
+	defer f.D.K.PsLatency.Store(0)
+	for _, ev := range s.Real {
+		if d := time.Until(t0.Add(time.Duration(ev.AtMs) * time.Millisecond)); d > 0 {
+			time.Sleep(d)
+		}
+		switch ev.Kind {
+		case "est":
+			rules := []stack.RuleOp{
+				{Verb: "create", Kind: "FAR", ID: 1, Action: 0x0c, HasAction: true, OHC: &stack.OHC{TEID: uint32(nest + 1), Peer: "10.0.0.9"}},
+				{Verb: "create", Kind: "QER", ID: 1, QFI: 9},
+				{Verb: "create", Kind: "URR", ID: 1, Method: 2, Trig: 0x03, Period: uint32(max(ev.Period, 1))},
+				{Verb: "create", Kind: "PDR", ID: 1, Prec: 1, SrcIf: 1, UEIP: "10.60.0.1", FAR: 1, QERs: []uint32{1}, URRs: []uint32{1}},
+			}
+			if !step(stack.Op{Kind: "est", Peer: 0, Node: 0, Sess: -1, CP: uint64(0x1000 + nest), Rules: rules}, fmt.Sprintf("establishment %d", nest)) {
+				return false
+			}
+			nest++
+		case "del":
+			if ev.Sess < nest {
+				if !step(stack.Op{Kind: "del", Peer: 0, Sess: ev.Sess}, fmt.Sprintf("deletion of %d", ev.Sess)) {
+					return false
+				}
+			}
+		case "slow":
+			f.D.K.PsLatency.Store(int64(time.Duration(ev.SlowMs) * time.Millisecond))
+		}
+	}
+	res.BusyRemovals = busyRemovals(s)
+	return true
+}
+
+// busyRemovals estimates from the schedule how many deletions land while the periodic server is inside a slow usage
+// query of another period group (tick times of a group = first registration + k * period).
+func busyRemovals(s Script) int {
+	first := map[int]int{} // period -> ms of first registration
+	var slowFrom []struct{ at, ms int }
+	n := 0
+	var ests []RealEv
+	for _, ev := range s.Real {
+		switch ev.Kind {
+		case "est":
+			if _, ok := first[ev.Period]; !ok {
+				first[ev.Period] = ev.AtMs
+			}
+			ests = append(ests, ev)
+		case "slow":
+			slowFrom = append(slowFrom, struct{ at, ms int }{ev.AtMs, ev.SlowMs})
+		}
+	}
+	for _, ev := range s.Real {
+		if ev.Kind != "del" || ev.Sess >= len(ests) {
+			continue
+		}
+		ms := 0
+		for _, sf := range slowFrom {
+			if sf.at <= ev.AtMs {
+				ms = sf.ms
+			}
+		}
+		for p, st := range first {
+			if p == ests[ev.Sess].Period || ms == 0 {
+				continue
+			}
+			since := ev.AtMs - st
+			if since >= p*1000 && since%(p*1000) < ms {
+				n++
+				break
+			}
+		}
+	}
+	return n
+}
+
 func TestC18Child(t *testing.T) {
 	js := os.Getenv("VERIF_C18_CHILD")
 	if js == "" {
@@ -457,6 +609,9 @@ func classify(s Script, r Result) *vcore.Violation {
 			over = r.TimerEvents > capEvents && r.Reported > capReports
 		case "loop->mux->loop":
 			over = r.InFlight > capReports
+		case "perio->ticker->perio", "ticker->perio->ticker":
+			// the unchanged code can only get there with a ticker stuck on a full event queue
+			over = r.TimerEvents > capEvents
 		}
 		key := "wedge:" + r.Cycle
 		if over {
@@ -464,7 +619,7 @@ func classify(s Script, r Result) *vcore.Violation {
 		} else {
 			key += ":within-queue-capacity"
 		}
-		return vcore.Violatef(key, "script %s wedges the UPF for good: wait-for cycle %s (timer events in one loop turn %d, sessions reported by one tick %d, notifications in flight %d; goroutines: %v)",
+		return vcore.Violatef(key, "script %s wedges the UPF for good: wait-for cycle %s (timer events posted during the bulk removal %d, sessions reported by one tick %d, notifications in flight %d; goroutines: %v)",
 			vcore.JSON(s), r.Cycle, r.TimerEvents, r.Reported, r.InFlight, r.States)
 	}
 	return nil
@@ -484,6 +639,14 @@ func account(s Script, r Result) {
 		vcore.E.Exclude("inconclusive")
 		vcore.E.Note(r.Inconclusive)
 	}
+	if len(s.Real) > 0 {
+		vcore.E.Class("real-tickers")
+		if r.BusyRemovals > 0 {
+			vcore.E.Class("real-tickers:removal-during-slow-query")
+			vcore.E.NonTrivial(vcore.JSON(s))
+			vcore.E.Sample("real-removal-during-slow-query", map[string]any{"script": s, "ok": r.OK, "cycle": r.Cycle, "busy_removals": r.BusyRemovals, "wall_ms": r.WallMs})
+		}
+	}
 	if r.TimerEvents > capEvents || r.Reported > capReports || r.InFlight > capReports {
 		vcore.E.NonTrivial(vcore.JSON(s))
 		vcore.E.Sample(fmt.Sprintf("ev%v-rep%v-inflight%v", r.TimerEvents > capEvents, r.Reported > capReports, r.InFlight > capReports),
@@ -500,10 +663,54 @@ func fixed() []Script {
 		{Name: "burst-below-capacity-during-mods", Sessions: 10, URRs: 0, Periods: 1, Burst: 100, BurstAt: "mods", Mods: 20, LatencyUs: 100, Tick: "none", Bulk: "none"},
 		{Name: "massdel-with-tick", Sessions: 200, URRs: 2, Periods: 1, Tick: "inside", Bulk: "massdel"},
 		{Name: "burst-idle-600", Sessions: 5, URRs: 1, Periods: 1, Burst: 600, BurstAt: "idle", Tick: "after", Bulk: "none"},
+		{Name: "real-tick-queued-behind-last-removal", Real: []RealEv{{AtMs: 0, Kind: "est", Period: 1}, {AtMs: 200, Kind: "est", Period: 2}, {AtMs: 900, Kind: "slow", SlowMs: 500},
+			{AtMs: 2100, Kind: "del", Sess: 1}, {AtMs: 2800, Kind: "del", Sess: 0}, {AtMs: 3000, Kind: "slow", SlowMs: 0}}},
 	}
 }
 
+// genReal draws a wall-clock schedule of 2..5 sessions over periods of 1..3 s, deletions and a slow-query window.  Half of
+// the schedules are built around the shape "group A's query is slow, group B's last URR is removed meanwhile, B's own tick
+// arrives right after", with the two offsets drawn freely around the window.
+func genReal(t *rapid.T) Script {
+	var evs []RealEv
+	add := func(e RealEv) { evs = append(evs, e) }
+	slow := rapid.SampledFrom([]int{0, 200, 400, 700}).Draw(t, "slow_ms")
+	if rapid.Bool().Draw(t, "core") {
+		if slow == 0 {
+			slow = 400
+		}
+		offA := rapid.IntRange(0, 3).Draw(t, "offA") * 100
+		d1 := rapid.IntRange(1, 8).Draw(t, "d1") * 50  // removal after A's tick
+		d2 := rapid.IntRange(1, 10).Draw(t, "d2") * 50 // B's tick after A's tick
+		add(RealEv{AtMs: offA, Kind: "est", Period: 1})
+		add(RealEv{AtMs: offA + d2, Kind: "est", Period: 2})
+		add(RealEv{AtMs: offA + d2 + 100, Kind: "slow", SlowMs: slow})
+		add(RealEv{AtMs: offA + 2000 + d1, Kind: "del", Sess: 1})
+		if rapid.Bool().Draw(t, "delA") {
+			add(RealEv{AtMs: offA + 2000 + 600 + rapid.IntRange(0, 6).Draw(t, "dA")*100, Kind: "del", Sess: 0})
+		}
+	} else {
+		n := rapid.IntRange(2, 5).Draw(t, "n")
+		ats := rapid.SliceOfN(rapid.IntRange(0, 16), n, n).Draw(t, "ats")
+		sort.Ints(ats)
+		for i := 0; i < n; i++ {
+			add(RealEv{AtMs: ats[i] * 50, Kind: "est", Period: rapid.IntRange(1, 3).Draw(t, "period")})
+		}
+		add(RealEv{AtMs: 850, Kind: "slow", SlowMs: slow})
+		for i := 0; i < n; i++ {
+			if rapid.IntRange(0, 3).Draw(t, "del") != 0 {
+				add(RealEv{AtMs: 1000 + rapid.IntRange(0, 50).Draw(t, "delat")*50, Kind: "del", Sess: i})
+			}
+		}
+	}
+	sort.SliceStable(evs, func(i, j int) bool { return evs[i].AtMs < evs[j].AtMs })
+	return Script{Real: evs}
+}
+
 func gen(t *rapid.T) Script {
+	if rapid.IntRange(0, 2).Draw(t, "real") == 0 {
+		return genReal(t)
+	}
 	s := Script{
 		Sessions:  rapid.OneOf(rapid.IntRange(1, 60), rapid.IntRange(100, 300), rapid.SampledFrom([]int{120, 129, 200, 257, 400})).Draw(t, "sessions"),
 		URRs:      rapid.IntRange(0, 4).Draw(t, "urrs"),
